@@ -129,6 +129,10 @@ def judge_candidate(cs, c, k, res, refine, panic_msg):
     # err
     if wc is None: return ('ok', '')
     key = 'well-conditioned-unrefined-failed' if wc == 'wc' else 'near-straight-unrefined-failed'
+    if _lattice:
+        # drawings on a lattice: exactly collinear vertices, bridges and chords are the rule, and every one of them meets the
+        # crate's absolute collinearity tolerance (push / sanitize drop vertices, after which a re-pushed edge meets an earlier one)
+        return ('fail', key + ':lattice', 'from_polygon returned Err for a well-conditioned polygon drawn on a 0.25 lattice (%s)' % cond_note(cs, c))
     # a vertex that carries more than one bridge (two holes hooked to the same outline vertex, or a hole hooked to the
     # vertex of an earlier hole that carries that hole's bridge) is told apart: get_closed_loop splices the later walk in after
     # the FIRST copy of such a vertex
@@ -145,7 +149,32 @@ def judge_candidate(cs, c, k, res, refine, panic_msg):
     if merge_lost: key += ':merge-drops-vertex'
     return ('fail', key, 'from_polygon returned Err for a well-conditioned polygon (%s%s)' % (cond_note(cs, c), (', a vertex carries two bridges' if shared else '') + (', push dropped a vertex of the merged outline' if merge_lost else '')))
 
+_lattice = False
+
+def lattice_polygon(A, i0):
+    """True when every vertex of the polygon (outline and holes) lies on a square lattice of 0.25 in the polygon's own plane:
+    all squared vertex-to-vertex distances are multiples of 1/16 (rigid motions keep that) - the generators' family `grid`"""
+    try:
+        pts = []
+        i = i0
+        n = int(A[i]); i += 1
+        pts += [tuple(OC.to_float(t) for t in A[i + 3 * j:i + 3 * j + 3]) for j in range(n)]; i += 3 * n
+        nh = int(A[i]); i += 1
+        for _ in range(nh):
+            m = int(A[i]); i += 1
+            pts += [tuple(OC.to_float(t) for t in A[i + 3 * j:i + 3 * j + 3]) for j in range(m)]; i += 3 * m
+    except Exception:
+        return False
+    if len(pts) < 3 or len(pts) > 60: return False
+    for a in range(len(pts)):
+        for b in range(a + 1, len(pts)):
+            d2 = sum((pts[a][k] - pts[b][k]) ** 2 for k in range(3)) * 16.0
+            if abs(d2 - round(d2)) > 1e-6 * max(1.0, d2): return False
+    return True
+
 def judge_parts(k, A, i0, res, panic_msg):
+    global _lattice
+    _lattice = lattice_polygon(A, i0)
     # "well-conditioned" is defined by the property itself (edges >= 0.05, angles >= 2 degrees, ...): for the unrefined
     # triangulation (k = 0) outlines down to 10 cm across are judged (a thin chevron whose only diagonal is a few millimetres long
     # has edges of 5..15 cm); refinement requests keep the half-metre floor of the C01 space
